@@ -97,6 +97,19 @@ def impl_setup():
 def do_call(t, b, api):
     """the spellings of the same bump: dt_bump(t, bump), dt(t, bump), the parts as separate arguments, upper case"""
     T = us2dt(t); B = py_bump(b)
+    if isinstance(api, str) and api.startswith('t:'):
+        # the same start / the same integer count in another type a caller may hold (numpy scalars of every unit and width,
+        # pandas Timestamp, date): dt_bump must read them as the same instant / the same count
+        import numpy as np, pandas as pd
+        how = api[2:]
+        if how == 'np_D': T = np.datetime64(T.date(), 'D')
+        elif how == 'np_s': T = np.datetime64(T.replace(microsecond=0), 's')
+        elif how == 'np_us': T = np.datetime64(T, 'us')
+        elif how == 'pdts': T = pd.Timestamp(T)
+        elif how == 'date': T = T.date()
+        elif how.startswith('npint'):
+            B = getattr(np, 'int' + how[5:])(B)
+        return call(dt_bump, T, B)
     if api == 'dt':
         return call(dt, T, B)
     if api == 'upper' and isinstance(B, str):
@@ -321,12 +334,30 @@ def gen_cases(rng, tier):
             ts.append(d * DAYUS + rng.choice([0, 6 * 3600 * 10**6, 18 * 3600 * 10**6, 86399999999, rng.randrange(DAYUS)]))
         cases.append({'kind': 'repeat', 'ts': ts, 'bump': {'str': s}})
     apis = ['dt', 'upper', 'split', 'dt_split']
+    extra = []
+    for c in cases:
+        if c['kind'] != 'bump' or rng.random() > 0.12:
+            continue
+        tt = c['t']; b = c['bump']
+        if 'int' in b:
+            n = b['int']
+            w = rng.choice([w for w in (8, 16, 32, 64) if -2 ** (w - 1) <= n < 2 ** (w - 1)])
+            extra.append(dict(c, api='t:npint%d' % w))
+        else:
+            opts = ['np_us']
+            if tt % DAYUS == 0: opts += ['np_D', 'date', 'np_D']
+            if tt % 1000000 == 0: opts += ['np_s']
+            if 1678 < us2dt(tt).year < 2262: opts += ['pdts']
+            extra.append(dict(c, api='t:' + rng.choice(opts)))
+    for y in (2262, 2263, 2280, 2299):       # numpy starts beyond the datetime64[ns] range, inside the claimed cycle
+        for how in ('np_D', 'np_s', 'np_us'):
+            extra.append({'kind': 'bump', 't': datetime.date(y, 4, 12).toordinal() * DAYUS, 'bump': {'str': rng.choice(['3b', '1m', '-2w', '10d'])}, 'api': 't:' + how})
     for c in cases:
         if c['kind'] == 'bump' and 'str' in c['bump'] and c['bump']['str'] not in NAMED and rng.random() < 0.3:
             c['api'] = rng.choice(apis)
         elif c['kind'] == 'bump' and 'str' not in c['bump'] and rng.random() < 0.3:
             c['api'] = 'dt'
-    return cases
+    return cases + extra
 
 def shrink(case):
     if case['kind'] == 'bump' and 'str' in case['bump']:
